@@ -337,6 +337,8 @@ def _extract_attributes(element):
         # an empty element holds the empty string (lxml reports its text as None)
         text = subel.text if subel.text is not None else ""
 
+        # without a recognised attribute the value is the element's text
+        _v = text
         for key, value in subel.attrib.items():
             if key == _ns_xsi("type"):
                 datatype = xml_qname_to_QualifiedName(subel, value)
@@ -356,9 +358,6 @@ def _extract_attributes(element):
                     % (_t, str(key), str(value)),
                     UserWarning,
                 )
-
-        if not subel.attrib:
-            _v = text
 
         attributes.append((_t, _v))
 
